@@ -24,14 +24,14 @@ NextReg(e) ==
     [] e.act = "teardown" -> <<>>
     [] OTHER -> reg
 NextExp(T, e) ==
-  IF e.act = "write"
+  IF e.act = "write" /\ ~e.unenc       \* a statement without a UTF-8 form is refused: nothing is expected anywhere
     THEN [w \in 1..NW(T) |-> IF w \notin RangeOf(reg) THEN exp[w]
                               ELSE IF Kind(T, w) = "path" /\ ~open[w] THEN e.data      \* ReopenTruncates
                               ELSE IF Kind(T, w) = "log" THEN exp[w] \o LogForm(e.data)
                               ELSE exp[w] \o e.data]
     ELSE exp
 NextOpen(T, e) ==
-  CASE e.act = "write" -> [w \in 1..NW(T) |-> open[w] \/ w \in RangeOf(reg)]
+  CASE e.act = "write" /\ ~e.unenc -> [w \in 1..NW(T) |-> open[w] \/ w \in RangeOf(reg)]
     [] e.act = "teardown" -> [w \in 1..NW(T) |-> open[w] /\ w \notin RangeOf(reg)]
     [] OTHER -> open
 
@@ -47,7 +47,7 @@ Holds(c, T, e) ==
          e.act = "teardown" =>
             /\ e.nreg = 0
             /\ \A w \in RangeOf(reg) : Kind(T, w) = "custom" => e.disc[w] = pdisc[w] + 1
-    [] c = "C14_Registry" -> e.nreg = Len(NextReg(e)) /\ e.out = "ok"
+    [] c = "C14_Registry" -> e.nreg = Len(NextReg(e)) /\ (e.out = "ok") = ~e.unenc
 Ante(c, T, e) ==
   CASE c = "C14_Delivery" -> e.act = "write" /\ reg # <<>>
     [] c = "C14_Others" -> e.act = "write" /\ \E w \in 1..NW(T) : w \notin RangeOf(reg)
